@@ -18,6 +18,11 @@ package main
 //	      the run-time circuit) for the Lean model.
 //	mpa   correspondence on the exported mpa API.
 //	one   -extra "<op> <s|u|b> <n> <a> <b> <aform> <bform>": replay one case verbosely.
+//	alias two constants of one value name at two widths (alias.go)
+//	multi 2..4 constant expressions coexisting in one program, values adversarial for the
+//	      identity of constants (multi.go, collide.go); -extra "<style> <item>..." replays one case
+//	ident the real ssa.Generator.Constant on the same adversarial pairs: one Name only for one
+//	      bit pattern (collide.go); -extra "<s|u> <n1> <v1> <s|u> <n2> <v2>" replays one pair
 
 import (
 	"fmt"
@@ -703,6 +708,10 @@ func main() {
 		modeOne(cf, o)
 	case "alias":
 		modeAlias(cf, o)
+	case "multi":
+		modeMulti(cf, o)
+	case "ident":
+		modeIdent(cf, o)
 	default:
 		fmt.Fprintln(os.Stderr, "unknown mode", mode)
 		os.Exit(2)
